@@ -4455,6 +4455,12 @@ func ConstructInclusiveRangeTypeValue(
 		return Nil
 	}
 
+	// The element type must be a leaf integer type,
+	// like for the statically checked type `InclusiveRange<T>`
+	if slices.Contains(sema.AllNonLeafIntegerTypes, elemSemaTy) {
+		return Nil
+	}
+
 	return NewSomeValueNonCopying(
 		context,
 		NewTypeValue(
